@@ -52,7 +52,7 @@ def enumerate_cases(tier, seed):
     for (fam, par), u in itertools.product(CASES[tier], units):
         yield ("single", {"fam": fam, "par": list(par), "unit": u, "J": J})
     J2 = 12 if tier == "quick" else 24
-    pairs = [(("gauss", (100.0, 30.0)), ("uniform", (12, 172))), (("uniform", (20, 120)), ("uniform", (20, 120))), (("log_normal", (90.0, 1.3)), ("poisson", (65.0,)))]
+    pairs = [(("schulz_zimm", (400.0, 300.0)), ("schulz_zimm", (150.0, 120.0))), (("flory_schulz", (0.1,)), ("flory_schulz", (0.02,))), (("gauss", (100.0, 30.0)), ("uniform", (12, 172))), (("uniform", (20, 120)), ("uniform", (20, 120))), (("log_normal", (90.0, 1.3)), ("poisson", (65.0,)))]
     if tier == "thorough":
         pairs += [(("gauss", (80.0, 25.0)), ("gauss", (80.0, 25.0))), (("schulz_zimm", (150.0, 120.0)), ("flory_schulz", (0.1,)))]
     for a, b in pairs:
